@@ -42,6 +42,20 @@ var (
 	}
 )
 
+// concatenation look-alikes: "192.168.0.2:5000"+"11.2.3.4" reads the same as
+// "192.168.0.2:50001"+"1.2.3.4" when a key is built without a separator
+var (
+	internalsConcat = []*net.UDPAddr{
+		{IP: net.IPv4(192, 168, 0, 2), Port: 5000}, {IP: net.IPv4(192, 168, 0, 2), Port: 50001},
+		{IP: net.IPv4(192, 168, 0, 2), Port: 500}, {IP: net.IPv4(192, 168, 0, 21), Port: 5000},
+	}
+	remotesConcat = []*net.UDPAddr{
+		{IP: net.IPv4(11, 2, 3, 4), Port: 80}, {IP: net.IPv4(1, 2, 3, 4), Port: 80},
+		{IP: net.IPv4(11, 2, 3, 4), Port: 8}, {IP: net.IPv4(1, 2, 3, 4), Port: 8},
+		{IP: net.IPv4(111, 2, 3, 4), Port: 80},
+	}
+)
+
 // form returns the address with its IP in the 4-byte or the 16-byte
 // representation; both denote the same IPv4 address and both reach the
 // translator through the public API.
@@ -251,9 +265,14 @@ func runNAPT(t *rapid.T, c *ev.Case, focus string) {
 	nInt := rapid.IntRange(1, 4).Draw(t, "nint")
 	nRem := rapid.IntRange(1, 5).Draw(t, "nrem")
 	internals, remotes := internals, remotes
-	if rapid.IntRange(0, 2).Draw(t, "pools") == 0 {
+	switch rapid.IntRange(0, 4).Draw(t, "pools") {
+	case 0:
 		internals, remotes = internalsAlike, remotesAlike
 		c.Label("pools/look-alike")
+	case 1:
+		internals, remotes = internalsConcat, remotesConcat
+		c.Label("pools/look-alike")
+		c.Label("pools/concat")
 	}
 	mixedForms := rapid.Bool().Draw(t, "mixedForms")
 	if mixedForms {
@@ -332,7 +351,7 @@ func runNAPT(t *rapid.T, c *ev.Case, focus string) {
 	}
 }
 
-const ruleC02 = "in-package history (1..120 events) over the NAPT translator of vnet on a virtual clock: outbound(internal i of 1..4 endpoints on 2 IPs x 2 ports, remote r of 1..5 on 3 IPs; in a third of the cases pools of look-alike addresses such as 5.6.7.8/5.6.7.80 and ports 70/700/7000; in half of the cases every address is handed over in the 4-byte or the 16-byte net.IP form at random), inbound(remote, external address: learned / never allocated / other router IP / guessed port), advance by {0,1/3,2/3,1-e,1,1+e,3} lifetimes; all 9 mapping x filtering behaviours, lifetimes 3 s/30 s/3000 s, 1..2 router IPs; oracle: same key and live => same external address; new key => address unlike every live mapping's, on a router IP, port 1..65535; idle > lifetime ends the mapping, inbound never prolongs it (the model is not touched by inbound, so any refresh shows up later); exactly one lifetime idle is 'either'; non-trivial = >=2 mappings and >=1 expiry/refresh decision away from the boundary; distinct by hash of configuration + events"
+const ruleC02 = "in-package history (1..120 events) over the NAPT translator of vnet on a virtual clock: outbound(internal i of 1..4 endpoints on 2 IPs x 2 ports, remote r of 1..5 on 3 IPs; in two fifths of the cases pools of look-alike addresses such as 5.6.7.8/5.6.7.80, ports 70/700/7000, or pairs like 192.168.0.2:5000 -> 11.2.3.4 and 192.168.0.2:50001 -> 1.2.3.4 whose concatenations read alike; in half of the cases every address is handed over in the 4-byte or the 16-byte net.IP form at random), inbound(remote, external address: learned / never allocated / other router IP / guessed port), advance by {0,1/3,2/3,1-e,1,1+e,3} lifetimes; all 9 mapping x filtering behaviours, lifetimes 3 s/30 s/3000 s, 1..2 router IPs; oracle: same key and live => same external address; new key => address unlike every live mapping's, on a router IP, port 1..65535; idle > lifetime ends the mapping, inbound never prolongs it (the model is not touched by inbound, so any refresh shows up later); exactly one lifetime idle is 'either'; non-trivial = >=2 mappings and >=1 expiry/refresh decision away from the boundary; distinct by hash of configuration + events"
 
 const ruleC03 = "same histories with the inbound side emphasised (55% inbound): forwarded iff a live mapping owns the address and the remote matches a recorded permission under the filtering behaviour, then to exactly the creator's address with source and payload unchanged and not aliased; otherwise dropped, and because the model ignores refused datagrams any side effect (permission, refresh, mapping) surfaces as a later disagreement; non-trivial = >=1 refused inbound followed by >=10 further steps and >=1 forwarded inbound; distinct by hash of configuration + events"
 
@@ -459,7 +478,7 @@ func TestC03OneToOne(t *testing.T) {
 
 // ---- port space -------------------------------------------------------------
 
-const rulePortSpace = "port-space scenario run through the full mapping model: a symmetric NAT (address-and-port dependent mapping and filtering), one internal endpoint, a first phase of 1..16390 distinct remotes, optionally the clock advanced past the lifetime (all of them expire), a second phase so that more than 16380 mappings have been requested (the port counter wraps and ports of expired mappings are inherited), then 0..40 endpoints of the first phase send again, then up to 300 inbound probes from the remotes of mappings the model knows to be live; oracle as in C02/C03: every external address is valid and differs from every live mapping's, a live mapping keeps its address, and a live mapping still admits its remote to its owner; a translation error for a new mapping hands out nothing and is not flagged; non-trivial = more mappings requested than there are ports in the dynamic range; distinct by hash of the parameters"
+const rulePortSpace = "port-space scenario run through the full mapping model: a symmetric NAT (address-and-port dependent mapping and filtering), one internal endpoint, a first phase of 1..16390 distinct remotes, optionally the clock advanced past the lifetime (all of them expire), a second phase so that more than 16380 mappings have been requested (the port counter wraps and ports of expired mappings are inherited), then 0..40 endpoints of the first phase send again, (optionally after the first phase has aged by 1/3 or 2/3 lifetime without expiring, and with a further half lifetime afterwards, so that mappings end their life shortly after the port search has passed over them), then up to 300 inbound probes from the remotes of mappings the model knows to be live and up to 100 to mappings whose lifetime has ended; oracle as in C02/C03: every external address is valid and differs from every live mapping's, a live mapping keeps its address, and a live mapping still admits its remote to its owner; a translation error for a new mapping hands out nothing and is not flagged; non-trivial = more mappings requested than there are ports in the dynamic range; distinct by hash of the parameters"
 
 func TestC02PortSpace(t *testing.T) {
 	r := ev.New("C02", "port-space", rulePortSpace)
@@ -469,6 +488,11 @@ func TestC02PortSpace(t *testing.T) {
 		n2 := rapid.SampledFrom([]int{0, 20, 400, 16390}).Draw(t, "phase2")
 		if n1+n2 < 16380 {
 			n2 = 16400 - n1
+		}
+		if !expire && n1 >= 16000 {
+			// the range is (nearly) full of live mappings: every further request searches it
+			// completely, a few dozen of them are enough (and all that is affordable)
+			n2 = rapid.IntRange(1, 60).Draw(t, "phase2few")
 		}
 		again := rapid.IntRange(0, 40).Draw(t, "again")
 		life := 30 * time.Second
@@ -498,9 +522,19 @@ func TestC02PortSpace(t *testing.T) {
 		if expire {
 			clock.Advance(life + time.Second)
 			c.Label("expired-prefix")
+		} else if g := rapid.SampledFrom([]time.Duration{0, life / 3, 2 * life / 3, 2 * life / 3}).Draw(t, "gap1"); g > 0 {
+			// the first phase ages without expiring: the second phase meets live holders
+			clock.Advance(g)
+			c.Label("aged-prefix")
 		}
 		for i := n1; i < n1+n2; i++ {
 			w.outbound(in, rem(i))
+		}
+		if g := rapid.SampledFrom([]time.Duration{0, life / 2, 3 * life / 4}).Draw(t, "gap2"); g > 0 {
+			// now the first phase may be past its lifetime although the port search of the
+			// second phase has looked at its mappings less than a lifetime ago
+			clock.Advance(g)
+			c.Label("aged-after-wrap")
 		}
 		// endpoints of the first phase send again (their mappings are expired or live)
 		for k := 0; k < again; k++ {
@@ -516,6 +550,17 @@ func TestC02PortSpace(t *testing.T) {
 				probes++
 			}
 		}
+		// and a mapping whose lifetime has ended without outbound traffic admits nobody,
+		// whatever else has looked at it meanwhile
+		expiredProbes := 0
+		for i := 0; i < n1 && expiredProbes < 100; i += 1 + n1/100 {
+			mp, live := w.m.Lookup(in, rem(i), clock.Offset())
+			if mp != nil && live == 0 {
+				w.inbound(rem(i), mp.Ext(), "expired")
+				expiredProbes++
+			}
+		}
+		c.Count("expired_probes", int64(expiredProbes))
 		if c.Has("outbound/error") {
 			c.Label("translation-errors")
 		}
